@@ -1,12 +1,12 @@
-import json,glob,sys
+import json,glob,sys,os
 from collections import Counter
 prop=sys.argv[1]; lim=int(sys.argv[2]) if len(sys.argv)>2 else 30
 c=Counter(); ex={}
-for f in sorted(glob.glob(f'/verif/run/{prop}/*.out.json')):
+for f in sorted(glob.glob(f'/verif/run/{os.environ.get("TAG","")}/{prop}/*.out.json')):
     for v in json.load(open(f))['violations']:
         k=(v['clause'], v['key']); c[k]+=v['count']; ex.setdefault(k,v)
 for k,n in c.most_common(lim):
     print(n, k, str(ex[k]['detail'])[:int(sys.argv[3]) if len(sys.argv)>3 else 500]); print()
-for f in sorted(glob.glob(f'/verif/run/{prop}/*.log')):
+for f in sorted(glob.glob(f'/verif/run/{os.environ.get("TAG","")}/{prop}/*.log')):
     s=open(f).read()
     if s.strip(): print(f, s[-1500:]); break
